@@ -83,6 +83,7 @@ pub struct SiteCounts {
     pub call: usize,
     pub call_prime: usize,
     pub call_arrow: usize,
+    pub arrow_complex_callee: usize,
     pub ret: usize,
     pub ret_trailing: usize,
     pub loops: usize,
@@ -134,6 +135,8 @@ pub struct Printer<'a> {
     no_atom_parens: usize,
     /// > 0 while the head of an assignment target is printed (calls there are written in the plain form)
     plain_calls: usize,
+    /// the call being printed may use the arrow form although its callee is not a plain name
+    arrow_complex_ok: bool,
     unreachable_lines: HashMap<u32, usize>,
     sites: SiteCounts,
     annot_taken: Vec<bool>,
@@ -229,6 +232,7 @@ impl<'a> Printer<'a> {
             brackets: 0,
             no_atom_parens: 0,
             plain_calls: 0,
+            arrow_complex_ok: false,
             unreachable_lines: HashMap::new(),
             sites: SiteCounts::default(),
             annot_taken: Vec::new(),
@@ -258,7 +262,8 @@ impl<'a> Printer<'a> {
         if style == 4 {
             // through a third module: `use via` here, `use to` there, written `via.to.name`
             let nf = m.files.len();
-            if let Some(via) = (1..nf).map(|k| (to + k) % nf).find(|k| *k != self.file && *k != to && *k != 0) {
+            let plain_ok = |k: usize| !lib_named(&m.files[k]);
+            if let Some(via) = (1..nf).map(|k| (to + k) % nf).find(|k| *k != self.file && *k != to && *k != 0 && plain_ok(*k)).filter(|_| plain_ok(to)) {
                 self.plain_uses.insert(via);
                 self.via_links.insert((via, to));
                 let a = module_ns(&import_path(&m.files[self.file], &m.files[via], false));
@@ -267,6 +272,7 @@ impl<'a> Printer<'a> {
             }
         }
         let style = if style == 4 { 0 } else { style };
+        let style = if style == 0 && lib_named(&m.files[to]) { 1 } else { style };
         self.needed.entry(to).or_default().insert(name.clone());
         match style {
             0 => {
@@ -581,7 +587,24 @@ impl<'a> Printer<'a> {
                     format!("({})", s)
                 }
             }
-            2 | 3 if simple_callee && !args.is_empty() => {
+            // `a -> f(b)`; a callee that is not a plain name is written in parentheses (`a -> (g(1))(b)`, `a -> (fn .. end)(b)`),
+            // and form 3 sometimes puts redundant ones around a plain name (`a -> (f)(b)`)
+            2 | 3 if !args.is_empty() && (simple_callee || (form == 3 && self.arrow_complex_ok)) => {
+                let callee = if simple_callee {
+                    if form == 3 && take(&self.plan.parens, &mut self.cur.parens) & 3 == 3 {
+                        self.sites.parens_added += 1;
+                        format!("({})", callee)
+                    } else {
+                        callee
+                    }
+                } else if callee.starts_with('(') && callee.ends_with(')') && balanced_outer(&callee) {
+                    callee
+                } else {
+                    format!("({})", callee)
+                };
+                if !simple_callee {
+                    self.sites.arrow_complex_callee += 1;
+                }
                 self.sites.call_arrow += 1;
                 if nested {
                     self.sites.nested_sugar += 1;
@@ -670,8 +693,21 @@ impl<'a> Printer<'a> {
             EKind::Case { scrut, arms, default } => self.case_text(scrut, arms, default),
             EKind::Call(f, args) => {
                 let simple = matches!(f.kind, EKind::Var(_));
+                // `a -> (callee)(b)` writes `a` before the callee: when both declare variables (function literals, case
+                // bindings, definitions) the compiler numbers them in another order - same meaning, other bytes. The
+                // byte-identity oracle of C14 is kept by not using the form then.
+                let binds = |x: &Expr| {
+                    let d = format!("{:?}", x);
+                    d.contains("Lambda(") || d.contains("Def {") || d.contains("bind: Some") || d.contains("BlobNew")
+                };
+                let saved = self.arrow_complex_ok;
+                self.arrow_complex_ok = !simple && !(binds(f) && args.first().map(|a| binds(a)).unwrap_or(false));
+                let ok_here = self.arrow_complex_ok;
                 let c = self.callee_text(f);
-                self.call_text(c, simple, args, tail)
+                self.arrow_complex_ok = ok_here;
+                let t = self.call_text(c, simple, args, tail);
+                self.arrow_complex_ok = saved;
+                t
             }
             EKind::Std(f, args) => self.call_text(Self::std_name(*f).to_string(), true, args, tail),
             EKind::Lambda(def) => self.fn_text(def, None),
@@ -1057,6 +1093,41 @@ impl<'a> Printer<'a> {
 }
 
 /// namespace name introduced by `use <path>`
+/// names of the bundled library modules: `use list` means the library, and every file has these namespaces bound
+pub const LIB_MODULES: &[&str] = &["common", "container", "dict", "list", "math", "maybe", "preamble", "set", "unsafe"];
+
+/// a project file (in a sub-folder) that carries the name of a library module: its namespace name is taken in every
+/// file, so it is imported under an alias or with `from`, never by its plain name
+pub fn lib_named(file: &str) -> bool {
+    file.contains('/') && LIB_MODULES.contains(&file.rsplit('/').next().unwrap_or(""))
+}
+
+/// the text is one parenthesised group: its first `(` closes at the very end
+fn balanced_outer(s: &str) -> bool {
+    let mut depth = 0i32;
+    let mut in_str = false;
+    let n = s.chars().count();
+    for (i, c) in s.chars().enumerate() {
+        if c == '"' {
+            in_str = !in_str;
+        }
+        if in_str {
+            continue;
+        }
+        match c {
+            '(' | '[' | '{' => depth += 1,
+            ')' | ']' | '}' => {
+                depth -= 1;
+                if depth == 0 && i + 1 < n {
+                    return false;
+                }
+            }
+            _ => {}
+        }
+    }
+    depth == 0
+}
+
 pub fn module_ns(import_path: &str) -> String {
     import_path.trim_matches('/').rsplit('/').next().unwrap_or("").to_string()
 }
@@ -1080,7 +1151,8 @@ pub fn import_path(from: &str, to: &str, rooted: bool) -> String {
         None
     };
     let mut path = match (rel, rooted) {
-        (Some(r), false) => r,
+        // (a bare library name would mean the library: a sibling file of that name is written root-relative)
+        (Some(r), false) if !(LIB_MODULES.contains(&r.as_str()) && !is_folder) => r,
         _ => format!("/{}", to_shown),
     };
     if is_folder {
@@ -1152,6 +1224,7 @@ pub fn print_files(p: &Program, plan: &Plan) -> PrintedFiles {
             cross += names.len();
             let style = m.style.get(f).and_then(|r| r.get(*to)).copied().unwrap_or(0) % 5;
             let style = if style == 4 { 0 } else { style };
+            let style = if style == 0 && lib_named(&m.files[*to]) { 1 } else { style };
             styles.insert(style);
             let rooted = m.rooted.get(f).and_then(|r| r.get(*to)).copied().unwrap_or(false);
             let path = import_path(&m.files[f], &m.files[*to], rooted);
@@ -1180,7 +1253,11 @@ pub fn print_files(p: &Program, plan: &Plan) -> PrintedFiles {
             // every non-empty module is loaded: main imports the ones nothing else made it need
             for to in 1..m.files.len() {
                 if !needed.contains_key(&to) && !plain.contains(&to) && m.file_of.iter().any(|x| *x == to) {
-                    header.push_str(&format!("use {}\n", import_path(&m.files[0], &m.files[to], false)));
+                    if lib_named(&m.files[to]) {
+                        header.push_str(&format!("use {} as ns{}\n", import_path(&m.files[0], &m.files[to], false), to));
+                    } else {
+                        header.push_str(&format!("use {}\n", import_path(&m.files[0], &m.files[to], false)));
+                    }
                 }
             }
         }
